@@ -124,16 +124,15 @@ Definition empty_ack_witness : list op :=
 Definition lowstart_witness : list hop :=
   map (fun i => HRecv (10 + 2 * Z.of_nat i)) (seq 0 (S (Z.to_nat rph_MaxNumAckRanges))) ++ [HRecv 13; HRecv 5].
 
-Lemma duplicate_lowstart_refuted :
-  exists ops q s e rest,
-    In (HRecv q) ops /\
-    ranges (fst (hrun newHist ops)) = (s, e) :: rest /\ s <= q /\ deletedBelow (fst (hrun newHist ops)) <= q /\
-    is_dup (fst (hrun newHist ops)) q = false /\
-    snd (hrunW ops (newHist, None)) = Some 10.
-Proof.
-  exists lowstart_witness, 10, 5, 5.
-  eexists. split; [vm_compute; left; reflexivity |]. vm_compute. repeat split; try reflexivity; discriminate.
-Qed.
+(** Before fixes/C07-trimmed-history-counts-as-received.patch this history refuted duplicate
+    detection (10 was received, dropped by the range limit and accepted a second time). With the
+    repaired trimming the threshold follows what is forgotten: 10 stays flagged, and the late packet
+    5 is refused as well. Kept as a regression example. *)
+Lemma lowstart_witness_handled :
+  let h := fst (hrun newHist lowstart_witness) in
+  In (HRecv 10) lowstart_witness /\ is_dup h 10 = true /\ snd (hist_recv h 10) = false /\
+  deletedBelow h = 11 /\ is_dup h 5 = true.
+Proof. vm_compute. repeat split; try reflexivity. left. reflexivity. Qed.
 
 (** What is flagged as duplicate and not below the forget threshold is acknowledged: together
     with [handler_accept_flagged] and [handler_dup_retained], an accepted packet is covered by
